@@ -22,6 +22,6 @@ Print Assumptions C16_sessions_safe.
 (* non-vacuity: capacity-1 style history - thread 0 holds partition 0 while thread 1's miss on partition 1 evicts it; the Remove
    goroutine cannot close it until thread 0 closes; afterwards it is closed exactly once *)
 Example C16_eviction_while_held :
-  let st := run [AGet 0 0 []; AGet 1 1 [0%nat]; ARemove 0; AUse 0; AClose 0; ARemove 0; ARemove 0] g0 [Idle; Idle] in
+  let st := run [AGet 0%nat 0%nat []; AGet 1%nat 1%nat [0%nat]; ARemove 0%nat; AUse 0%nat; AClose 0%nat; ARemove 0%nat; ARemove 0%nat] g0 [Idle; Idle] in
   bad (fst st) = false /\ map nclosed (sessions (fst st)) = [1; 0].
 Proof. vm_compute. split; reflexivity. Qed.
